@@ -292,7 +292,18 @@ fn idata() -> Vec<IData> {
     let mut corrupt = z.clone();
     let k = corrupt.len() / 2;
     corrupt[k] ^= 0x10;
+    // > 2 windows of output with matches at distance 24000: after the window has wrapped, a copy must carry the
+    // whole window, not only the part below the write position
+    let blk = lcg_bytes(77, 24000);
+    let mut far: Vec<u8> = vec![];
+    for _ in 0..3 {
+        far.extend_from_slice(&blk);
+    }
+    far.extend_from_slice(&blk[..9000]);
+    let cfg9 = DCfg { level: 9, strategy: 0, wbits: 15, mem_level: 8, wrap: Wrap::Zlib };
+    let far_z = run_deflate::<Ng>(&cfg9, &far, &DSched::one_shot(), &env, &DExtra::default(), None).expect("reference deflate").out;
     vec![
+        IData { name: "zlib-long-far-matches", wb: 15, bytes: far_z },
         IData { name: "zlib", wb: 15, bytes: z },
         IData { name: "gzip+header", wb: 31, bytes: mk(Wrap::Gzip, 9, Some(&gzf)) },
         IData { name: "raw-stored", wb: -15, bytes: mk(Wrap::Raw, 0, None) },
